@@ -90,17 +90,20 @@ def connect (cp : Desc → Desc → Bool) (allAtom : Bool) (mg : Meta) (mol : Mo
   let cuts := (edgesFrom cp mg.edges (openOf mol inst)).2
   cuts.foldlM (applyCut allAtom) mol
 
+/-- re-attach one edge of the removed node `rem` to `keep` (networkx.contracted_nodes, self_loops=False) -/
+def moveStep (keep rem : Key) (m : Mol) (e : Edge) : Mol :=
+  let w := if e.a == rem then e.b else e.a
+  if w == keep || w == rem then m           -- the contracted edge itself / a self loop of `rem`
+  else if m.hasEdge keep w then m           -- parallel edge: the existing one wins
+  else { m with edges := m.edges ++ [{ e with a := keep, b := w }] }
+
 /-- networkx.contracted_nodes(G, keep, rem, self_loops=False) followed by resolve.py:350-351 -/
 def contract (mol : Mol) (keep rem : Key) : Mol :=
   let remAtom := mol.atom? rem
   let incident := mol.edges.filter fun e => e.a == rem || e.b == rem
   let rest : Mol := { atoms := mol.atoms.filter (·.key != rem),
                       edges := mol.edges.filter fun e => !(e.a == rem || e.b == rem) }
-  let moved := incident.foldl (fun (m : Mol) e =>
-      let w := if e.a == rem then e.b else e.a
-      if w == keep || w == rem then m           -- the contracted edge itself / a self loop of `rem`
-      else if m.hasEdge keep w then m           -- parallel edge: the existing one wins
-      else { m with edges := m.edges ++ [{ e with a := keep, b := w }] }) rest
+  let moved := incident.foldl (moveStep keep rem) rest
   match remAtom with
   | none => moved
   | some r => moved.updAtom keep fun a => { a with fragid := a.fragid ++ r.fragid, mapping := a.mapping ++ r.mapping }
@@ -160,26 +163,31 @@ def missingH (vals : List Nat) (bonds2 : Nat) : Nat :=
   | some v => (2 * v - bonds2) / 2
   | none => 0
 
-/-- fill_valence(respect_hcount=False) after `hcount := 0`, then add_explicit_hydrogens, then the
-    attribute inheritance loop of rebuild_h_atoms -/
-def rebuildH (mol : Mol) : Py Mol := do
-  -- hydrogens needed per atom, in node order (bond orders are not changed by adding H later: each
-  -- atom's count is computed from the heavy graph because fill_valence runs to completion first)
-  let counts ← mol.atoms.mapM fun a =>
+/-- hydrogens needed per atom, in node order: fill_valence(respect_hcount=False) after `hcount := 0`.
+    Each atom's count is computed from the graph as it is before any hydrogen is added
+    (fill_valence runs to completion before add_explicit_hydrogens starts). -/
+def hCounts (mol : Mol) : Py (List (Key × Nat)) :=
+  mol.atoms.mapM fun a =>
     if a.isH then pure (a.key, 0)
     else match valenceOf a with
       | none => throw PyErr.value
       | some vs => pure (a.key, missingH vs (mol.bonds2 a.key))
-  let step := fun (m : Mol) (kc : Key × Nat) =>
-    let start := m.nextKey
-    let hs : List Atom := (List.range kc.2).map fun i =>
-      { key := start + i, element := ['H'], isH := true, hasArom := true, aromatic := false, charge := 0 }
-    let es : List Edge := (List.range kc.2).map fun i => ⟨kc.1, start + i, 2, none⟩
-    { atoms := m.atoms ++ hs, edges := m.edges ++ es }
-  let mol1 : Mol := { mol with atoms := mol.atoms.map fun a => { a with hcount2 := 0 } }
-  let mol2 := counts.foldl step mol1
-  -- inheritance: every hydrogen that is not a single-H fragment takes fragid / fragname / weight of
-  -- its first neighbour unless it has the attribute already
+
+/-- add_explicit_hydrogens for one atom: `c` new hydrogen nodes with keys `max+1 …`, each bonded to
+    `k` with order 1 -/
+def hStep (m : Mol) (kc : Key × Nat) : Mol :=
+  let start := m.nextKey
+  let hs : List Atom := (List.range kc.2).map fun i =>
+    { key := start + i, element := ['H'], isH := true, hasArom := true, aromatic := false, charge := 0 }
+  let es : List Edge := (List.range kc.2).map fun i => ⟨kc.1, start + i, 2, none⟩
+  { atoms := m.atoms ++ hs, edges := m.edges ++ es }
+
+def addHs (mol : Mol) (counts : List (Key × Nat)) : Mol :=
+  counts.foldl hStep { mol with atoms := mol.atoms.map fun a => { a with hcount2 := 0 } }
+
+/-- the attribute inheritance loop of rebuild_h_atoms: every hydrogen that is not a single-H
+    fragment takes fragid / fragname / weight of its first neighbour unless it has them already -/
+def inheritH (mol2 : Mol) : Py Mol := do
   let atoms ← mol2.atoms.mapM fun h =>
     if h.isH && !h.singleH then
       match mol2.neighbors h.key with
@@ -195,6 +203,11 @@ def rebuildH (mol : Mol) : Py Mol := do
                         extra := w }
     else pure h
   pure { mol2 with atoms := atoms }
+
+/-- pysmiles_utils.rebuild_h_atoms after the aromaticity correction -/
+def rebuildH (mol : Mol) : Py Mol := do
+  let counts ← hCounts mol
+  inheritH (addHs mol counts)
 
 /-- Python's lexicographic order on lists of naturals -/
 def lexLt : List Nat → List Nat → Bool
@@ -213,14 +226,17 @@ def insertSorted (x : List Nat × Key) : List (List Nat × Key) → List (List N
 
 def sortItems (l : List (List Nat × Key)) : List (List Nat × Key) := l.foldr insertSorted []
 
-/-- graph_utils.sort_nodes_by_attr: relabel to ranks in (fragid, key) order; node iteration order
-    is unchanged (networkx relabel_nodes(copy=True)). Returns the relabeling too. -/
+/-- the old keys in sorted order: `[old for old, _ in sorted(fragids.items(), key=(fragid, key))]` -/
+def sortOrder (mol : Mol) : List Key := (sortItems (mol.atoms.map fun a => (a.fragid, a.key))).map (·.2)
+
+/-- graph_utils.sort_nodes_by_attr: every node is relabeled to its rank in (fragid, key) order
+    (`mapping = {old: new for new, old in enumerate(sorted_ids)}`); node iteration order is unchanged
+    (networkx relabel_nodes(copy=True)). Returns the relabeling too. -/
 def sortNodes (mol : Mol) : Mol × List (Key × Key) :=
-  let sorted := sortItems (mol.atoms.map fun a => (a.fragid, a.key))
-  let mapping : List (Key × Key) := sorted.zipIdx.map fun (it, i) => (it.2, i)
-  let nk := fun (k : Key) => (mapping.lookup k).getD k
+  let order := sortOrder mol
+  let nk := fun (k : Key) => order.idxOf k
   ({ atoms := mol.atoms.map fun a => { a with key := nk a.key },
-     edges := mol.edges.map fun e => { e with a := nk e.a, b := nk e.b } }, mapping)
+     edges := mol.edges.map fun e => { e with a := nk e.a, b := nk e.b } }, order.zipIdx)
 
 /-- graph_utils.annotate_fragments: per coarse node the fine nodes that record it, in fine-graph
     iteration order -/
